@@ -444,6 +444,14 @@ def run_S2(cx, job):
                      ' %s ' % tok):
             _check_text(cx, 'S2', text, S2_CREDS, nontrivial=True)
         cx.acc.sample('S2', tok)
+    # check tokens that merely BEGIN with the letters of an operator word,
+    # standing where an operator would make the sequence a sentence
+    for tok in ('origin:x', 'order', 'ORG:a', 'android:y', 'nothing',
+                'Notify:%(x)s', 'andy', 'orb:1', 'notary:1', 'Or:x', 'AND:x'):
+        for text in ('@ %s @' % tok, 'role:a %s @' % tok, '%s !' % tok,
+                     '%s @' % tok, '(@ %s @)' % tok, '@ %s role:x' % tok,
+                     'role:x or role:a %s @' % tok):
+            _check_text(cx, 'S2', text, S2_CREDS, nontrivial=True)
     # two tokens next to each other, separated by every kind of blank - the
     # pieces must never fuse into one check (True<TAB>:True is NOT True:True)
     pair = ['True', ':True', '1', ':1', "'x'", ':x', 'x', 'role:a', '@', '!',
